@@ -393,7 +393,9 @@ class Module(metaclass=ModuleMeta):
         if in_project is None:
             in_project = self.parent is not None
         yield b"SFFF", pack("<I", self.flags)
-        yield b"SNAM", self.name.encode(ENCODING)[:32].ljust(32, b"\0")
+        # Cut to 32 bytes on a character boundary, so the stored name always decodes.
+        name = self.name.encode(ENCODING)[:32].decode(ENCODING, "ignore")
+        yield b"SNAM", name.encode(ENCODING).ljust(32, b"\0")
         if self.mtype is not None and self.mtype != "Output":
             yield b"STYP", self.mtype.encode(ENCODING) + b"\0"
         yield b"SFIN", pack("<i", self.mod_finetune)
